@@ -247,6 +247,8 @@ def parse_kani_output(out):
             r["checks"] = int(m.group(2))
         for fm in re.finditer(r"Failed Checks: (.*)\n(?: File: \"([^\"]*)\", line (\d+), in (\S+))?", text):
             r["failed_checks"].append({"msg": fm.group(1).strip(), "file": fm.group(2), "line": fm.group(3), "fn": fm.group(4)})
+        if "encountered no panics, but at least one was expected" in text:
+            r["failed_checks"].append({"msg": "the operation was expected to panic (refuse) but completed", "file": None, "line": None, "fn": None})
         if "VERIFICATION:- SUCCESSFUL" in text:
             r["status"] = "success"
         elif "VERIFICATION:- FAILED" in text:
